@@ -14,6 +14,11 @@ COMMON_NOTE = (
 )
 
 CLAIMED = {
+    "C01": dict(
+        technique="machine-checked proof in Coq (field-algebra theorems for placement and gradient covariance, structural induction for the layer-building loop, lra for the advance rule) + correspondence by vm_compute + end-to-end picture comparison of real builds",
+        text="Unbounded theorems: the viewBox->font placement is user o flip o uniform-scale-and-centre (over any field); the advance rule with half-even rounding; the reversed-pre-order/depth-stack loop of _painted_layers returns exactly the source's items as trees in source order for every picosvg-normal source (mutual induction), no assertion reachable; linear gradients are carried by any invertible affine, the default p2 is the SVG projection, uniform transforms map gradient circles to circles. The models are tied to color_glyph.py by evaluating them in Coq on random Fractions / generated picosvg documents. The composition (incl. reuse rewrite, palette, quantisation) is checked end to end: generated source sets x configurations x {glyf,cff,cff2}_colr_1 are compiled by the real code, reloaded, and every glyph's COLR paint graph is compared layer by layer (boundary distance, group alpha structure, colours, gradient geometry) with the placed source.",
+        ref="DESIGN.md 8 C01",
+    ),
     "C05": dict(
         technique="machine-checked proof in Coq (lia/lra theorems about the clip-box computation) + correspondence by vm_compute + independent COLR placement semantics evaluated on the implementation's boxes",
         text="Unbounded theorems: every control point fed to the bounds computation lies in the emitted box widened by the half unit otRound may move an edge; quantised edges are multiples of the step, at most one step outward; no box iff nothing painted; the assertion is unreachable. Model tied to write_font._bounds/_quantize_bounding_rect by evaluating it in Coq on generated paint trees and glyph environments; the implementation's boxes are also judged against placements computed by an independent COLR semantics.",
